@@ -1034,3 +1034,117 @@ func RunLookaheadSkip(w *World, r *Report, fns []*ssa.Function) {
 	}
 	r.Floor("lookaheadskip", 3)
 }
+
+// RunReverseScan: reverse chaining substitutions (GSUB lookup type 8) are
+// processed from the end of the glyph sequence to its start, so that a
+// substitution does not change the lookahead of the positions still to come.
+// Context.Apply therefore distinguishes lookup type 8 and scans backwards for
+// it.
+func RunReverseScan(w *World, r *Report) {
+	r.Rule("reversescan: (*Context).Apply compares the lookup type with 8 and has, behind that test, a scan whose position decreases: reverse chaining substitutions are applied from the end of the sequence towards its start")
+	fn := w.Func("(*opentype/gtab.Context).Apply")
+	if fn == nil {
+		r.Fatal("(*opentype/gtab.Context).Apply does not resolve")
+		return
+	}
+	key := r.MkKey("reversescan", fnName(fn), "lookup type 8")
+	tests := false
+	for _, b := range fn.Blocks {
+		for _, in := range b.Instrs {
+			bo, ok := in.(*ssa.BinOp)
+			if !ok || (bo.Op != token.EQL && bo.Op != token.NEQ) {
+				continue
+			}
+			if k, ok := bconstInt(bo.Y); ok && k == 8 && fieldName(loadAddr(bo.X)) == "LookupType" {
+				tests = true
+			}
+		}
+	}
+	if tests {
+		r.OK("reversescan", key, w.Pos(fn.Pos()), "lookup type 8 is told apart")
+	} else {
+		r.Fail("reversescan", key, w.Pos(fn.Pos()), "Apply scans every lookup from the start of the sequence to its end and never looks at the lookup type: a reverse chaining substitution (GSUB type 8) is applied forwards, so a glyph substituted at one position changes the lookahead context of the position before it is processed", nil)
+	}
+}
+
+// RunFreshSlot: a glyph sequence that is extended in place (re-sliced beyond
+// its length into the capacity of the buffer) exposes elements that still
+// hold whatever an earlier call left there. Behind the extension an element
+// is therefore written as a whole (seq[i] = glyph.Info{...}); setting
+// single fields of it lets the advance and offsets of an earlier call shine
+// through.
+func RunFreshSlot(w *World, r *Report, fns []*ssa.Function) {
+	r.Rule("freshslot: in the functions of package gtab that extend a []glyph.Info in place (a slice expression whose upper bound is computed from len of the same slice plus something), no field of an element of that slice is stored behind the extension unless the same block also stores the whole element: inserted glyphs do not inherit fields from an earlier use of the buffer")
+	n := 0
+	for _, fn := range fns {
+		if !strings.HasSuffix(fnPkgPath(fn), "/opentype/gtab") || len(fn.Blocks) == 0 {
+			continue
+		}
+		// growth: Slice with High = len(X) + ... over a []glyph.Info
+		var grow []*ssa.Slice
+		for _, b := range fn.Blocks {
+			for _, in := range b.Instrs {
+				sl, ok := in.(*ssa.Slice)
+				if !ok || sl.High == nil || !strings.HasSuffix(sl.Type().String(), "glyph.Info") {
+					continue
+				}
+				add, ok := sl.High.(*ssa.BinOp)
+				if !ok || (add.Op != token.ADD && add.Op != token.SUB) {
+					continue
+				}
+				hasLen := false
+				for v := range backSlice(add) {
+					if c, ok := v.(*ssa.Call); ok {
+						if bi, ok := c.Call.Value.(*ssa.Builtin); ok && bi.Name() == "len" {
+							hasLen = true
+						}
+					}
+				}
+				if hasLen {
+					grow = append(grow, sl)
+				}
+			}
+		}
+		for _, g := range grow {
+			n++
+			key := r.MkKey("freshslot", fnName(fn), "sequence extended in place")
+			bad := ""
+			for _, b := range fn.Blocks {
+				if !(g.Block() == b || g.Block().Dominates(b)) {
+					continue
+				}
+				whole := map[ssa.Value]bool{} // index values whose element is stored whole in this block
+				for _, in := range b.Instrs {
+					if st, ok := in.(*ssa.Store); ok {
+						if ia, ok := st.Addr.(*ssa.IndexAddr); ok && ia.X == ssa.Value(g) {
+							whole[ia.Index] = true
+						}
+					}
+				}
+				for _, in := range b.Instrs {
+					st, ok := in.(*ssa.Store)
+					if !ok {
+						continue
+					}
+					fa, ok := st.Addr.(*ssa.FieldAddr)
+					if !ok {
+						continue
+					}
+					ia, ok := fa.X.(*ssa.IndexAddr)
+					if !ok || ia.X != ssa.Value(g) {
+						continue
+					}
+					if !whole[ia.Index] {
+						bad = w.Pos(st.Pos())
+					}
+				}
+			}
+			if bad != "" {
+				r.Fail("freshslot", key, bad, "a single field of an element of the extended sequence is set here, and the element is not written as a whole in the same place: the other fields (advance, offsets, text) keep what an earlier call on the same buffer left in that slot, so the result depends on the history of the Context or Layouter", nil)
+			} else {
+				r.OK("freshslot", key, w.Pos(g.Pos()), "elements behind the extension are written whole")
+			}
+		}
+	}
+	r.Floor("freshslot", 1)
+}
